@@ -100,6 +100,22 @@ func (w *ConfigurationWatcher) Start(ch chan<- controller.ID) error {
 				Target: event.Configuration.ID.Target,
 				Index:  event.Configuration.Applied.Index,
 			})
+			// A commit stage that has ended lets two kinds of transaction proceed that no requeue names: the change
+			// or rollback that was waiting for the committed configuration to be idle - the current revision (the
+			// only change that can be rolled back) and the next change in the log - and the transaction committed last,
+			// whose apply waits at the end of the chain of ordinals.
+			ch <- controller.NewID(configapi.TransactionID{
+				Target: event.Configuration.ID.Target,
+				Index:  configapi.Index(event.Configuration.Committed.Revision),
+			})
+			ch <- controller.NewID(configapi.TransactionID{
+				Target: event.Configuration.ID.Target,
+				Index:  event.Configuration.Committed.Change + 1,
+			})
+			ch <- controller.NewID(configapi.TransactionID{
+				Target: event.Configuration.ID.Target,
+				Index:  event.Configuration.Committed.Index,
+			})
 		}
 	}()
 	return nil
